@@ -339,7 +339,12 @@ class MessageManager(ClientLike):
                     )
 
         else:
-            module.mod_id = self.assign_module_id()
+            try:
+                module.mod_id = self.assign_module_id()
+            except RuntimeError:
+                # every dynamic id is in use: refuse this client, keep serving the others
+                self.remove_module(module)
+                return False
 
         module.connected = True
 
